@@ -34,7 +34,7 @@ const UNMAPPED: &[&str] = &["ext/U1", "ext/U2", "ext/U3"];
 
 fn strategy() -> impl Strategy<Value = Case> {
 	let cfg = GenCfg { ns_min: 2, ns_max: 4, p_missing: 12, style: TargetStyle::Arbitrary, injective: true, injective_members: false, max_classes: 7, max_fields: 3, max_methods: 3, max_params: 0, docs: false, ..GenCfg::default() };
-	(mapset(cfg), any::<(u8, u8)>(), draws(), vec(raw_type(), 0..6), vec(any::<u16>(), 0..24), order_seed()).prop_map(|(mut m, (f, t), stream, raw_descs, queries, order)| {
+	(mapset(cfg), any::<(u8, u8, u16)>(), draws(), vec(raw_type(), 0..6), vec(any::<u16>(), 0..24), order_seed()).prop_map(|(mut m, (f, t, chain), stream, raw_descs, queries, order)| {
 		let n = m.ns.len();
 		// shadowing: copy members (same key, other target names) into other classes
 		{
@@ -121,6 +121,21 @@ fn strategy() -> impl Strategy<Value = Case> {
 			}
 			if !supers.is_empty() || dr.pct(50) {
 				inh.push((nodes[i].clone(), supers));
+			}
+		}
+		// deep hierarchies: in one case of 16 a chain of unmapped intermediate classes is spliced between a class and its
+		// super types (depths around 64 / 256 / 1000, where depth guards and recursion limits would sit)
+		if chain % 16 == 0 {
+			const DEPTHS: &[usize] = &[10, 63, 64, 65, 66, 100, 255, 256, 257, 300, 1000];
+			let depth = DEPTHS[idx(chain, DEPTHS.len())];
+			let with_supers: Vec<usize> = (0..inh.len()).filter(|&i| !inh[i].1.is_empty()).collect();
+			if !with_supers.is_empty() {
+				let at = with_supers[idx(chain.rotate_left(5), with_supers.len())];
+				let old_supers = std::mem::replace(&mut inh[at].1, vec!["ext/chain/K0".to_string()]);
+				for k in 0..depth {
+					let sup = if k + 1 == depth { old_supers.clone() } else { vec![format!("ext/chain/K{}", k + 1)] };
+					inh.push((format!("ext/chain/K{k}"), sup));
+				}
 			}
 		}
 		let pool: Vec<String> = set_classes.iter().cloned().chain(UNMAPPED.iter().map(|s| s.to_string())).collect();
@@ -335,6 +350,71 @@ fn check<const N: usize>(case: &Case, obs: &mut Obs) -> PropResult {
 			return Err(format!("map_field_desc {d} -> {:?} -> {:?} is not the identity", there.as_inner(), again.as_inner()));
 		}
 		obs.label("desc_round_trip");
+	}
+	// --- the inheritance graph translated to namespace Y (JarSuperProv::remap), and members mapped back through it
+	let y_prov = JarSuperProv::remap(&ra, &vec![prov(&case.inh)?]).map_err(|e| format!("JarSuperProv::remap failed: {e:#}"))?;
+	let mut inh_y: Vec<(String, Vec<String>)> = Vec::new();
+	let mut collision = false;
+	for (c, sup) in &case.inh {
+		let c2 = reference.map_class(c);
+		let mut sup2: Vec<String> = Vec::new();
+		for x in sup {
+			let x2 = reference.map_class(x);
+			if sup2.contains(&x2) {
+				collision = true;
+			} else {
+				sup2.push(x2);
+			}
+		}
+		collision |= inh_y.iter().any(|(k, _)| *k == c2);
+		inh_y.push((c2, sup2));
+	}
+	if collision {
+		// an unmapped name of X coincides with a Y name: the translated graph is ambiguous by nature
+		obs.label("translated_graph_collision");
+	} else {
+		let got_y: Vec<(String, Vec<String>)> = y_prov
+			.iter()
+			.flat_map(|p| p.super_classes.iter())
+			.map(|(k, v)| (k.as_inner().as_str().unwrap_or("?").to_string(), v.iter().map(|x| x.as_inner().as_str().unwrap_or("?").to_string()).collect()))
+			.collect();
+		if y_prov.len() != 1 || got_y != inh_y {
+			return Err(format!("JarSuperProv::remap gives {got_y:?}, expected every class and super type translated in place: {inh_y:?}\nfrom={} to={} mappings = {m:?}", case.from, case.to));
+		}
+		obs.label("translated_graph");
+		// X -> Y -> X on members: what the forward remapper answers is asked back through the translated graph
+		let inh_y_map: Inheritance = inh_y.iter().cloned().collect();
+		let ref_back = RefRemapper::new(m, case.to, case.from, &inh_y_map);
+		let rb_back = q.remapper_b(to, from, &y_prov[0]).map_err(|e| format!("remapper_b (back) failed: {e:#}"))?;
+		for (owner, sup) in case.inh.iter().take(6) {
+			let _ = sup;
+			let owner_y = reference.map_class(owner);
+			let oy = class_name(&owner_y).map_err(|e| format!("harness: {e:#}"))?;
+			for (is_method, name, desc) in members.iter().take(12) {
+				let (n_y, d_y) = reference.map_member(owner, name, desc, *is_method, Search::Dfs);
+				if n_y.is_empty() || reference.map_member(owner, name, desc, *is_method, Search::Bfs) != (n_y.clone(), d_y.clone()) {
+					continue;
+				}
+				let want_dfs = ref_back.map_member(&owner_y, &n_y, &d_y, *is_method, Search::Dfs);
+				let want_bfs = ref_back.map_member(&owner_y, &n_y, &d_y, *is_method, Search::Bfs);
+				let got: (String, String) = if *is_method {
+					let Ok(mn) = MethodName::try_from(js(&n_y)) else { continue };
+					let r = rb_back.map_method(&oy, &mn, &MethodDescriptor::try_from(js(&d_y)).unwrap()).map_err(|e| format!("map_method back ({owner_y}.{n_y}{d_y}) failed: {e:#}"))?;
+					(r.name.as_inner().as_str().unwrap().to_string(), r.desc.as_inner().as_str().unwrap().to_string())
+				} else {
+					let Ok(fname) = FieldName::try_from(js(&n_y)) else { continue };
+					let r = rb_back.map_field(&oy, &fname, &FieldDescriptor::try_from(js(&d_y)).unwrap()).map_err(|e| format!("map_field back ({owner_y}.{n_y} {d_y}) failed: {e:#}"))?;
+					(r.name.as_inner().as_str().unwrap().to_string(), r.desc.as_inner().as_str().unwrap().to_string())
+				};
+				if got != want_dfs && got != want_bfs {
+					return Err(format!(
+						"{owner}.{name} {desc} maps to {owner_y}.{n_y} {d_y}; asked back through the translated inheritance graph the answer is {got:?}, expected {want_dfs:?}\nmappings = {m:?}\nfrom={} to={} inheritance={:?} translated={inh_y:?}",
+						case.from, case.to, case.inh
+					));
+				}
+				obs.label(if got == (name.clone(), desc.clone()) { "member_round_trip:identity" } else { "member_round_trip:not_injective" });
+			}
+		}
 	}
 	obs.label(format!("ns={N},from={},to={}", case.from, case.to));
 	obs.label_if(case.from != 0, "from_not_first");
